@@ -10,7 +10,7 @@ it answers, for a set of comment blocks on the fixed skeleton,
 and every (id, field) not mentioned MUST equal the baseline (frame).
 """
 from vt.scan import run
-from vt.scan.c03_skel import ELEMENTS, FN, TYPEINFO, METHOD_NAMES, EMITTER_OK, NEAR_MISS, vfunc_of, fields
+from vt.scan.c03_skel import ELEMENTS, FN, TYPEINFO, METHOD_NAMES, EMITTER_OK, NEAR_MISS, vfunc_of
 
 NEAR = dict(NEAR_MISS)
 
